@@ -58,6 +58,8 @@ ALLOW = [
     (r"ToLeafNode$", r"^frame -> op_node -> cache_ = std :: static_pointer_cast < CsgLeafNode > \( \( \* impl \) \[ 0 \] -> Transform", "neutral",
      "wraps the (closed) result leaf; status is carried, no geometry is read (lazy transform)"),
     (r"Impl::Minkowski$", r"^return tree ;$", "neutral", "returns the closed tree handle"),
+    (r"^MakeSmoothImpl$", r"^for \( size_t i = 0 ; i < numTri ; \+\+ i \)$", "indep",
+     "numTri = impl->NumTri() is 0 for an Impl that CreateTangents emptied with MakeEmpty(Cancelled): the body does not run"),
 ]
 
 # Object-level functions: they hand around status-carrying handles (Manifold, CsgLeafNode); a cancellation
@@ -68,7 +70,7 @@ STATUS_LEVEL = r"^(SimpleBoolean|BatchBoolean|BatchUnion|CsgOpNode::ToLeafNode|M
 
 NOOP = re.compile(r"^(ZoneScoped ;|ZoneScopedN \(|PRINT \(|DEBUG_ASSERT \(|\( void \) \w+ ;|;$)")
 DECL = re.compile(r"^(?:static |const |constexpr |thread_local |mutable |typename )*"
-                  r"(?:struct |class |using |typedef |auto |[A-Za-z_][\w]*(?: :: [A-Za-z_]\w*)*(?: < [^;(){}]* >)?(?: :: [A-Za-z_]\w*)* )"
+                  r"(?:struct |class |using |typedef |auto |[A-Za-z_][\w]*(?: :: [A-Za-z_]\w*)*(?: < [^;(){}]*>)?(?: :: [A-Za-z_]\w*)* )"
                   r"(?:[&*] |const )*(?:\[ [^\]]* \] |[A-Za-z_]\w* )(?:=|\(|\{|;|\[|:)")
 NOT_DECL_FIRST = {"return", "delete", "throw", "goto", "else", "case", "break", "continue", "if", "for", "while", "do", "switch", "new"}
 TOK = re.compile(r"[A-Za-z_]\w*|\d[\w.]*|::|->|==|!=|<=|>=|&&|\|\||\+\+|--|<<|>>|\+=|-=|\*=|/=|\S")
@@ -178,7 +180,7 @@ def parse_stmt(toks, i, end):
     if t in ("case", "default") :
         j = i
         while toks[j][0] != ":": j += 1
-        return None, j + 1
+        return Stmt("label", toks[i:j + 1], toks[i][1]), j + 1
     if t == "if":
         j = i + 1
         if toks[j][0] == "constexpr": j += 1
@@ -510,7 +512,7 @@ class Analysis:
         Returns the set of origins still pending at the fall-through exit."""
         O = set(origins)
         for s in stmts:
-            if s is None:
+            if s is None or s.kind == "label":
                 continue
             O = self.scan_stmt(s, O, fn, record, st, depth, inlined)
         return O
@@ -627,7 +629,7 @@ class Analysis:
     def _collect_checks(self, stmts, fn, in_lambda):
         f = self.fns[fn]
         for s in stmts:
-            if s is None:
+            if s is None or s.kind == "label":
                 continue
             ck = self.check_kind(s)
             if ck:
@@ -651,7 +653,9 @@ class Analysis:
                 # a check inside an (anonymous) lambda or expression
                 for i, (t, ln) in enumerate(s.toks):
                     if t == "IsCancelled":
-                        if s.text.startswith("return IsCancelled") or " return IsCancelled (" in s.text and f["file"] == "execution_impl.cpp":
+                        if s.text.startswith("struct ") and "~" in s.text:
+                            self.checks["%s:%d" % (f["file"], ln)] = "Observe"      # a local struct's destructor (PhaseBalance): steers no exit of the function
+                        elif s.text.startswith("return IsCancelled") or " return IsCancelled (" in s.text and f["file"] == "execution_impl.cpp":
                             self.checks["%s:%d" % (f["file"], ln)] = "Observe"
                         else:
                             self.checks["%s:%d" % (f["file"], ln)] = "LoopChunk"
@@ -699,7 +703,7 @@ def phase_table(repo, an):
                 def walk(stmts):
                     c = 0
                     for s in stmts:
-                        if s is None: continue
+                        if s is None or s.kind == "label": continue
                         if s.kind == "simple":
                             c += 1 if re.match(pat, s.text) else 0
                         elif s.kind == "block": c += walk(s.body)
